@@ -142,7 +142,27 @@ def main():
     try:
         mod = importlib.import_module(a.pid.lower())
         if a.replay:
-            sys.exit(mod.replay(R, json.load(open(a.replay))))
+            # replay = re-run the (deterministic) generator, oracle and correspondence of the recorded seed and tier and
+            # report whether the recorded violation reappears on the current tree
+            obj = json.load(open(a.replay))
+            print(obj.get('what'))
+            want = obj.get('key') or obj.get('no_longer_checks')
+            rseed, rtier = int(obj.get('seed', seed)), obj.get('tier', tier)
+            R = Run(a.pid, rtier, rseed)
+            R.dev = True
+            driver_ok = True
+            if (obj.get('kind') or '').startswith('obligation') and not a.no_lean:
+                translate(R)
+                driver_ok = lean_build(R, a.pid)
+            reps = max(1, int(os.environ.get('VERIF_THOROUGH_SEEDS', '4'))) if rtier == 'thorough' else 1
+            for k in range(reps):
+                mod.run(R, rtier, rseed + 104729 * k, driver_ok)
+            again = [v for v in R.violations if v[0] == want] + [b for b in R.breaks if b[0] == want]
+            if again:
+                print(f'REPRODUCED property={a.pid} {want}: {again[0][1][:300]}')
+                sys.exit(1)
+            print(f'not reproduced on the current tree: {want}')
+            sys.exit(0)
         driver_ok = True
         if not a.no_lean:
             translate(R)
